@@ -123,23 +123,25 @@ NewNum(a) == IF num[a] < 0 THEN nextNum ELSE num[a]
 NewNext(a) == IF num[a] < 0 THEN nextNum + 1 ELSE nextNum
 NewBname(bl, a) == [b \in RealBlk |-> IF num[a] < 0 /\ b \in Rng(bl[a]) THEN <<nextNum, IdxOf(bl[a], b) - 1>> ELSE bname[b]]
 
+\* depth guard of the bounded model-checking configurations (replaced there by  TLCGet("level") < MaxLevel)
+Go == TRUE
 Ok(a) == err' = "" /\ act' = a
 Refuse(a) == UNCHANGED vars /\ err' = "refused" /\ act' = a
 Outside == fresh \cup (IF ReAdd THEN purged ELSE {})
 
 (* ---------- actions ---------- *)
 Swap(x, y) ==
-    /\ x \in InCore /\ y \in InCore /\ x # y /\ CompatIn(blocks, x, y)
+    /\ Go /\ x \in InCore /\ y \in InCore /\ x < y /\ CompatIn(blocks, x, y)   \* (y, x) is Cascade(<<y, x>>)
     /\ SetShuffle(SwapIn(Cur, x, y))
     /\ UNCHANGED <<children, sfp, slot, fresh, purged, charged, num, nextNum, asmTab, blkTab, bname, content, track, sflags>>
     /\ Ok([n |-> "Swap", x |-> x, y |-> y])
 
 SwapMismatch(x, y) ==
-    /\ x \in InCore /\ y \in InCore /\ x # y /\ ~CompatIn(blocks, x, y)
+    /\ Go /\ x \in InCore /\ y \in InCore /\ x < y /\ ~CompatIn(blocks, x, y)
     /\ Refuse([n |-> "SwapMismatch", x |-> x, y |-> y])
 
 Cascade(l) ==
-    /\ Len(l) >= 2 /\ Rng(l) \subseteq InCore
+    /\ Go /\ Len(l) >= 2 /\ Rng(l) \subseteq InCore
     /\ LET r == CascadeFold(l) IN
        /\ SetShuffle(r.s)
        /\ err' = IF r.ok THEN "" ELSE "refused"
@@ -147,7 +149,7 @@ Cascade(l) ==
     /\ UNCHANGED <<children, sfp, slot, fresh, purged, charged, num, nextNum, asmTab, blkTab, bname, content, track, sflags>>
 
 Add(a, l, how) ==
-    /\ a \in Outside /\ l \in Loc /\ byLoc[l] = 0
+    /\ Go /\ a \in Outside /\ l \in Loc /\ byLoc[l] = 0
     /\ children' = Append(children, a)
     /\ loc' = [loc EXCEPT ![a] = l] /\ byLoc' = [byLoc EXCEPT ![l] = a]
     /\ num' = [num EXCEPT ![a] = NewNum(a)] /\ nextNum' = NewNext(a)
@@ -162,11 +164,11 @@ Add(a, l, how) ==
     /\ Ok([n |-> "Add", a |-> a, l |-> l, how |-> how])
 
 AddOccupied(a, l) ==
-    /\ a \in Outside /\ l \in Loc /\ byLoc[l] # 0
+    /\ Go /\ a \in Outside /\ l \in Loc /\ byLoc[l] # 0
     /\ Refuse([n |-> "AddOccupied", a |-> a, l |-> l])
 
 RemoveAsm(a, d) ==
-    /\ a \in InCore
+    /\ Go /\ a \in InCore
     /\ children' = Without(children, a)
     /\ loc' = [loc EXCEPT ![a] = 0] /\ byLoc' = [byLoc EXCEPT ![loc[a]] = 0]
     /\ IF d /\ track
@@ -182,7 +184,7 @@ RemoveAsm(a, d) ==
     /\ Ok([n |-> "Remove", a |-> a, d |-> d])
 
 DischargeSwap(i, o) ==
-    /\ o \in InCore /\ i \in Outside \cup Pool /\ CompatIn(blocks, i, o)
+    /\ Go /\ o \in InCore /\ i \in Outside \cup Pool /\ CompatIn(blocks, i, o)
     /\ LET bl    == ExchangeIn(blocks, i, o)
            l     == loc[o]
            pool1 == IF track THEN Append(sfp, o) ELSE sfp        \* removeAssembly(outgoing) comes first ...
@@ -209,13 +211,13 @@ DischargeSwap(i, o) ==
     /\ Ok([n |-> "DischargeSwap", i |-> i, o |-> o])
 
 DischargeMismatch(i, o) ==
-    /\ o \in InCore /\ i \in Outside \cup Pool /\ ~CompatIn(blocks, i, o)
+    /\ Go /\ o \in InCore /\ i \in Outside \cup Pool /\ ~CompatIn(blocks, i, o)
     /\ Refuse([n |-> "DischargeMismatch", i |-> i, o |-> o])
 
 InjSeqs(S, lo, hi) == UNION {{s \in [1..k -> S] : \A p, q \in 1..k : p # q => s[p] # s[q]} : k \in lo..hi}
 
-Init ==
-    /\ track \in TrackSet /\ sflags \in SFlagSets
+InitWith(t, f) ==
+    /\ track = t /\ sflags = f
     /\ children = [i \in 1..NA0 |-> i]
     /\ loc = [a \in Asm |-> IF a \in Initial THEN Place[a] ELSE 0]
     /\ byLoc = [l \in Loc |-> IF \E a \in Initial : Place[a] = l THEN CHOOSE a \in Initial : Place[a] = l ELSE 0]
@@ -230,13 +232,17 @@ Init ==
     /\ content = [b \in RealBlk |-> b]
     /\ moves = [a \in Asm |-> 0]
     /\ err = "" /\ act = [n |-> "Init"]
+Init == \E t \in TrackSet, f \in SFlagSets : InitWith(t, f)
 
 Next ==
-    \/ \E x, y \in Asm : x < y /\ (Swap(x, y) \/ SwapMismatch(x, y))
+    \/ \E x, y \in Asm : Swap(x, y)
+    \/ \E x, y \in Asm : SwapMismatch(x, y)
     \/ \E l \in InjSeqs(InCore, 2, MaxCascade) : Cascade(l)
-    \/ \E a \in Asm, l \in Loc : Add(a, l, "arg") \/ Add(a, l, "own") \/ AddOccupied(a, l)
+    \/ \E a \in Asm, l \in Loc, how \in {"arg", "own"} : Add(a, l, how)
+    \/ \E a \in Asm, l \in Loc : AddOccupied(a, l)
     \/ \E a \in Asm, d \in BOOLEAN : RemoveAsm(a, d)
-    \/ \E i, o \in Asm : DischargeSwap(i, o) \/ DischargeMismatch(i, o)
+    \/ \E i, o \in Asm : DischargeSwap(i, o)
+    \/ \E i, o \in Asm : DischargeMismatch(i, o)
 
 Spec == Init /\ [][Next]_allvars
 
